@@ -51,7 +51,7 @@ ASSUMPTIONS = [
     "refusal is only demanded when the corresponding centres are farther apart than every patch radius of "
     "every catalog involved (the library compares against half the radius of its largest catalog)",
 ]
-PROBES = ["single_record_patch", "mode_apply", "mode_divide", "mode_create", "refusal_ids", "refusal_permuted", "refusal_displaced", "nometa_parallel_open"]
+PROBES = ["single_record_patch", "mode_apply", "mode_divide", "mode_create", "refusal_ids", "refusal_permuted", "refusal_displaced", "refusal_single_displaced", "nometa_parallel_open"]
 REAL_VS_STUB = dict(
     real="yaw catalog creation, Patch/Metadata, load_patches, PatchLinkage guards, YAML; tmpfs",
     stub="multiprocessing (sim.fakemp), treecorr RNG/threads, _num_processes",
@@ -63,7 +63,7 @@ def gen_case(prng: Prng, tier: str, i: int) -> dict:
         return dict(
             prop=PROP,
             part="B",
-            kind=prng.choice(["ids", "permuted", "displaced"]),
+            kind=prng.choice(["ids", "permuted", "displaced", "single_displaced"]),
             data_seed=prng.below(1 << 30),
             k=prng.randint(2, 5),
             n=prng.randint(30, 90),
@@ -224,7 +224,21 @@ def _part_b(case: dict, root: str) -> dict:
     if len(centers) < 2:
         return dict(verdict="discard", detail="degenerate scene")
     cb = centers.copy()
-    if kind == "ids":
+    if kind == "single_displaced":
+        # catalog A (the larger one) gets a single-object patch (radius 0) far from everything
+        # else; in catalog B the corresponding centre lies 40 degrees away, all extended
+        # patches stay aligned
+        ra = wl.gen_records(seed, min(wl.NMAX, 2 * n + 20), has_w=False, has_z=True, zedges=edges, zpad=-0.01, edge_frac=0.0)
+        centers = wl.ensure_nonempty_centers(rb, wl.ensure_nonempty_centers(ra, centers))
+        far_a = np.deg2rad([200.0, 40.0])
+        far_b = np.deg2rad([240.0, 40.0])
+        ra = {k_: np.append(v, {"ra": 200.0, "dec": 40.0, "z": 0.5}[k_]) for k_, v in ra.items()}
+        rb = dict(rb)
+        extra = dict(ra=np.array([240.0, 240.2, 239.9]), dec=np.array([40.0, 40.1, 39.9]), w=np.array([1.0, 2.0, 0.5]), z=np.array([0.3, 0.6, 0.8]))
+        rb = {k_: np.concatenate([v, extra[k_]]) for k_, v in rb.items()}
+        cb = np.vstack([centers, far_b[None, :]])
+        centers = np.vstack([centers, far_a[None, :]])
+    elif kind == "ids":
         cb = centers[:-1]
     elif kind == "permuted":
         cb = np.roll(centers, 1, axis=0)
@@ -234,6 +248,8 @@ def _part_b(case: dict, root: str) -> dict:
         rb = dict(rb)
         rb["ra"] = (rb["ra"] + 40.0) % 360.0
     cb = wl.ensure_nonempty_centers(rb, cb) if kind == "ids" else cb
+    if kind == "single_displaced" and (len(centers) < 3 or len(cb) != len(centers)):
+        return dict(verdict="discard", detail="degenerate scene")
     pa, pb = os.path.join(root, "A"), os.path.join(root, "B")
     try:
         with sequential_mode():
